@@ -109,8 +109,9 @@ VEqB(a0, b0) ==
              [] OTHER -> TRUE       \* none, ellipsis, nil: singletons
 VEq(a, b) == VEqB(a, b)
 
-\* Python's `<` on finite numerics of the same family
-NumLt(a, b) == NumQ(a) < NumQ(b)
+\* Python's `<` on finite numerics of the same family; every comparison with nan is false
+IsNanV(a) == a.k = "float" /\ a.sp = "nan"
+NumLt(a, b) == ~IsNanV(a) /\ ~IsNanV(b) /\ NumQ(a) < NumQ(b)
 
 (***************************************************************************)
 (* Sized values, text helpers                                              *)
